@@ -490,6 +490,28 @@ func outerCancel(s *simrt.Sim) {
 		return
 	}
 	if shutdownInv == 0 {
+		// everybody has released (or was refused): nothing is held, so a writer is granted without having to
+		// wait out the grace period for some reader — an RLock that reported an error must not have left a hold behind
+		t0 := time.Now()
+		var grantedAt time.Time
+		s.Go("probe", func() {
+			unlock := o.Lock()
+			grantedAt = time.Now()
+			unlock()
+		})
+		if !s.Join(time.Hour, "probe") {
+			s.Fail("hang", "a writer arriving after every client had finished was never granted\n"+s.Dump())
+			return
+		}
+		if d := grantedAt.Sub(t0); d >= grace {
+			nerr := 0
+			for _, r := range readers {
+				if r.errored {
+					nerr++
+				}
+			}
+			s.Fail("leaked-hold", fmt.Sprintf("outer-cancel: every reader and writer had released, yet a new writer waited %v (the grace period is %v): a read hold is still registered (%d RLock calls had reported an error)", d, grace, nerr))
+		}
 		shutdownInv = s.Stamp()
 		stopRun()
 	}
